@@ -137,7 +137,11 @@ fn check_type(
 ) {
     debug!("checking type: {ty:?}");
     match ty {
-        RustType::Generic { parameters, .. } => {
+        RustType::Generic { id, parameters } => {
+            // a renamed generic type is defined under its new name like any other type
+            if let Some(renamed) = resolve_renamed(crate_name, serde_renamed, import_types, id) {
+                *id = renamed;
+            }
             for ty in parameters {
                 check_type(crate_name, serde_renamed, import_types, ty);
             }
